@@ -17,21 +17,26 @@ PROP = 'C10'
 XA, XB, YA, YB, PP = 0x80, 0x81, 0x90, 0x91, 0xA0
 
 
-def sizes(dll):
+def sizes(dll, exact=False):
+    if exact:                      # exact multiples of the packet size
+        return (21, 14) if dll == 'j1939-21' else (180, 120)
     return (20, 16) if dll == 'j1939-21' else (150, 130)
 
 
-def nframes(dll, kind):
+def nframes(dll, kind, win=2):
+    """bus frames of a fault-free 3-packet (BAM: 3 / 2-packet) transfer"""
+    cts = {1: 3, 2: 2}.get(win, 1)
     if dll == 'j1939-21':
-        return 7 if kind == 'p2p' else 4
-    return 8 if kind == 'p2p' else 5
+        return 1 + cts + 3 + 1 if kind == 'p2p' else 4
+    return 1 + cts + 3 + 2 if kind == 'p2p' else 5
 
 
 def alphabet(hist):
     dll = hist[0][1]
+    win = min(hist[0][2], hist[0][3]) if len(hist[0]) > 3 else 2
     A = []
     for d in ('out', 'in'):
-        n = nframes(dll, 'p2p')
+        n = nframes(dll, 'p2p', win)
         A.append((d, 'p2p', ('clean',)))
         for k in range(n):
             A.append((d, 'p2p', ('lost', k)))
@@ -68,10 +73,11 @@ def cfg_of(hist):
 
 class Built:
     def __init__(self, hist):
-        _c, dll = hist[0]
+        dll = hist[0][1]
+        wx, wy, self.exact = (hist[0][2], hist[0][3], hist[0][4]) if len(hist[0]) > 3 else (2, 2, False)
         self.dll = dll
         sc = {'dll': dll, 'base_lat': 1e-3,
-              'stacks': [{'name': 'X', 'cas': [XA, XB], 'win': 2}, {'name': 'Y', 'cas': [YA, YB], 'win': 2}]}
+              'stacks': [{'name': 'X', 'cas': [XA, XB], 'win': wx}, {'name': 'Y', 'cas': [YA, YB], 'win': wy}]}
         self.net = net = Net(sc)
         self.x, self.y = net.stacks
         self.peer = RefPeer(net.bus, 'P', PP, dll, rlat=(1e-3,), holds=(0,), dt_gap=(0.0,), bam_gap=(0.012,))
@@ -87,7 +93,7 @@ class Built:
         net = self.net
         w = net.w
         dll = self.dll
-        big, bsz = sizes(dll)
+        big, bsz = sizes(dll, self.exact)
         base = len(net.bus.log)
         sent0 = len(net.sent)
         if ep[0] in ('out', 'in'):
@@ -278,7 +284,7 @@ def probe(hist):
             return probs
         net = b.net
         dll = b.dll
-        big, bsz = sizes(dll)
+        big, bsz = sizes(dll, b.exact)
         n0 = len(net.rec.items)
         net.sent = []
         res = []
@@ -338,26 +344,32 @@ def run(tier, seed):
     nontrivial, outcomes = set(), set()
     info = {}
     try:
+        cfgs = []
         for dll in ('j1939-21', 'j1939-22'):
-            cfg = ('cfg', dll)
+            wins = [(2, 2, False), (1, 255, True)] if tier == 'quick' else \
+                [(2, 2, False), (1, 1, True), (255, 255, False), (1, 255, True), (255, 2, False), (2, 1, True)]
+            for (wx, wy, exact) in wins:
+                cfgs.append(('cfg', dll, wx, wy, exact))
+        for cfg in cfgs:
+            dll = cfg[1]
             depth = 3 if tier == 'quick' else 6
             r = mc.bfs('vf.props.c10', [[cfg]], lambda i, d=depth: d, acc, probe=True, sig=csig)
-            info[dll] = {'states_per_level': r['levels'], 'depth_completed': r['depth_completed'],
+            info['%s windows %d/%d%s' % (dll, cfg[2], cfg[3], ' exact-multiple sizes' if cfg[4] else '')] = {'states_per_level': r['levels'], 'depth_completed': r['depth_completed'],
                          'frontier_emptied': r['frontier_emptied'], 'episode_alphabet': len(alphabet([cfg]))}
-            for dig, h in list(r['seen'].items())[:2]:
+            for dig, h in list(r['seen'].items())[:1]:
                 acc.sample({'history': h})
             acc.sample({'episode_examples': [list(map(str, alphabet([cfg])[i])) for i in (1, 12, 30)]})
             for dig in r['seen']:
-                nontrivial.add(hash((dll, dig)))
+                nontrivial.add(hash((cfg, dig)))
             for e in alphabet([cfg]):
-                nontrivial.add(hash((dll, e)))
+                nontrivial.add(hash((cfg, e)))
     except RuntimeError as e:
         print("HARNESS-ERROR property=%s\n%s" % (PROP, e))
         return 2
     acc.extra['per_layer'] = info
     fix = all(v['frontier_emptied'] for v in info.values())
     return report(PROP, tier, seed, 'model_checking', acc, nontrivial, outcomes, RULE, ASSUME, t0,
-                  exhaustive=fix, mc=True, nitems=2, bounds={'max_depth': 3 if tier == 'quick' else 6, 'fixpoint_reached': fix})
+                  exhaustive=fix, mc=True, nitems=len(cfgs), bounds={'max_depth': 3 if tier == 'quick' else 6, 'fixpoint_reached': fix})
 
 
 def replay(rec):
